@@ -11,13 +11,17 @@ import (
 	"errors"
 	"fmt"
 	"sort"
+	"strings"
 	"sync"
 	"sync/atomic"
 	"time"
 
 	dragonboat "github.com/lni/dragonboat/v4"
+	"github.com/lni/dragonboat/v4/client"
 	"github.com/lni/dragonboat/v4/config"
 	"github.com/lni/dragonboat/v4/logger"
+	pb "github.com/lni/dragonboat/v4/raftpb"
+	sm "github.com/lni/dragonboat/v4/statemachine"
 	c01hooks "github.com/lni/dragonboat/v4/verifhooks/c01"
 	"verif/harness/vh"
 )
@@ -36,6 +40,8 @@ type opRec struct {
 	code       uint64
 	rval, rver uint64
 	obs        uint64
+	committed  bool // a Committed notification was received (NotifyCommit)
+	attempts   int  // session proposals: number of times the same series was proposed
 }
 
 type histCfg struct {
@@ -50,10 +56,30 @@ type histCfg struct {
 	snapEvery   uint64
 	paceMs      int // mean pause between two operations of one client
 	checkQuorum bool
-	concurrent  bool          // IConcurrentStateMachine instead of IStateMachine
-	slowReplica uint64        // 0 = none; this replica dwells in about a third of its Updates
+	concurrent  bool   // IConcurrentStateMachine instead of IStateMachine
+	slowReplica uint64 // 0 = none; this replica dwells in about a third of its Updates
 	slowDwell   time.Duration
+	// dimensions added for the glue code of node.go / engine.go / nodehost.go
+	onDisk       bool // IOnDiskStateMachine (excludes concurrent and sessions)
+	notifyCommit bool // NodeHostConfig.NotifyCommit: Committed notifications before Completed
+	sessions     bool // clients register sessions and retry a timed out series on any host
+	lateJoin     bool // the non-voting replica 4 joins in the middle of the history (snapshot transfer / streaming)
+	membership   bool // add voter 5 and witness 6, remove one of the initial voters, through the API
+	snapshotOps  bool // RequestSnapshot with options / exported, RequestCompaction
+	queryLog     bool // QueryRaftLog, compared with the applied entries
+	quiesce      bool // Config.Quiesce and an idle period inside the history
 }
+
+// roles of the hosts (index = replica id - 1)
+const (
+	roleAbsent = iota
+	roleVoter
+	roleNonVoting
+	roleWitness
+	roleRemoved
+)
+
+const maxHosts = 6 // 1-3 initial voters, 4 non-voting, 5 voter added later, 6 witness
 
 type cluster struct {
 	cfg    histCfg
@@ -70,6 +96,36 @@ type cluster struct {
 	codes  map[string]uint64
 	notes  map[string]int
 	noteMu sync.Mutex
+	fss    []config.IFS
+	role   []int    // guarded by mu
+	paused int32    // clients and faults pause (idle period of the quiesce dimension)
+	mon    []string // gen-time monitor messages (guarded by noteMu)
+	qlog   []qentry // entries returned by QueryRaftLog (guarded by noteMu)
+}
+
+// qentry is one committed entry returned by QueryRaftLog.
+type qentry struct {
+	host  int
+	index uint64
+	id    uint64
+}
+
+func (c *cluster) violation(format string, a ...interface{}) {
+	c.noteMu.Lock()
+	c.mon = append(c.mon, fmt.Sprintf(format, a...))
+	c.noteMu.Unlock()
+}
+
+func (c *cluster) roleOf(i int) int {
+	c.mu.RLock()
+	defer c.mu.RUnlock()
+	return c.role[i]
+}
+
+func (c *cluster) setRole(i int, r int) {
+	c.mu.Lock()
+	c.role[i] = r
+	c.mu.Unlock()
 }
 
 // subRand derives an independent stream: vh.Rand streams of neighbouring seeds
@@ -85,7 +141,7 @@ func (c *cluster) note(k string) {
 }
 
 func (c *cluster) raftConfig(replica uint64, nonVoting bool) config.Config {
-	return config.Config{
+	rc := config.Config{
 		ReplicaID:          replica,
 		ShardID:            shardID,
 		ElectionRTT:        10,
@@ -94,11 +150,27 @@ func (c *cluster) raftConfig(replica uint64, nonVoting bool) config.Config {
 		SnapshotEntries:    c.cfg.snapEvery,
 		CompactionOverhead: 5,
 		IsNonVoting:        nonVoting,
+		Quiesce:            c.cfg.quiesce,
+		// NodeHost.RequestCompaction only has work to do when compaction is not automatic
+		DisableAutoCompactions: c.cfg.snapshotOps,
 	}
+	if c.cfg.quiesce {
+		// quiesce is entered after 10 election time-outs without activity
+		rc.ElectionRTT = 6
+	}
+	return rc
 }
 
 // startReplica starts the shard's replica on nh with the kind of state machine of this history.
 func (c *cluster) startReplica(nh *dragonboat.NodeHost, members map[uint64]dragonboat.Target, join bool, rc config.Config) error {
+	if rc.IsWitness {
+		rc.SnapshotEntries = 0
+		rec := c.rec
+		return nh.StartReplica(members, join, func(uint64, uint64) sm.IStateMachine { return witnessSM{rec} }, rc)
+	}
+	if c.cfg.onDisk {
+		return nh.StartOnDiskReplica(members, join, c.rec.onDiskFactory(), rc)
+	}
 	if c.cfg.concurrent {
 		return nh.StartConcurrentReplica(members, join, c.rec.concurrentFactory(), rc)
 	}
@@ -122,9 +194,17 @@ var quietOnce sync.Once
 // quietLogger discards the library's log text; Panicf keeps its meaning.
 type quietLogger struct{}
 
-func (quietLogger) SetLevel(logger.LogLevel)                    {}
-func (quietLogger) Debugf(format string, args ...interface{})   {}
-func (quietLogger) Infof(format string, args ...interface{})    {}
+func (quietLogger) SetLevel(logger.LogLevel)                  {}
+func (quietLogger) Debugf(format string, args ...interface{}) {}
+func (quietLogger) Infof(format string, args ...interface{}) {
+	// the only trace of a shard going quiet that is visible from outside
+	if strings.Contains(format, "entered quiesce") {
+		atomic.AddInt64(&quiesceEntered, 1)
+	}
+}
+
+var quiesceEntered int64
+
 func (quietLogger) Warningf(format string, args ...interface{}) {}
 func (quietLogger) Errorf(format string, args ...interface{})   {}
 func (quietLogger) Panicf(format string, args ...interface{}) {
@@ -139,12 +219,9 @@ func quietLogs() {
 
 func startCluster(cfg histCfg) (*cluster, error) {
 	quietLogs()
-	n := 3
-	if cfg.nonVoting {
-		n = 4
-	}
+	n := maxHosts
 	c := &cluster{cfg: cfg, net: newNetwork(subRand(cfg.seed, 99).U64()), rec: newRecorder(),
-		hosts: make([]*dragonboat.NodeHost, n), codes: dragonboat.VerifC01Codes(), notes: map[string]int{}}
+		hosts: make([]*dragonboat.NodeHost, n), role: make([]int, n), codes: dragonboat.VerifC01Codes(), notes: map[string]int{}}
 	if cfg.slowReplica != 0 {
 		c.rec.slow = map[uint64]time.Duration{cfg.slowReplica: cfg.slowDwell}
 	}
@@ -157,6 +234,7 @@ func startCluster(cfg histCfg) (*cluster, error) {
 		}
 		ex := config.GetDefaultExpertConfig()
 		ex.FS = c01hooks.NewMemFS()
+		c.fss = append(c.fss, ex.FS)
 		ex.TransportFactory = &netFactory{net: c.net}
 		ex.Engine = config.EngineConfig{ExecShards: 2, CommitShards: 2, ApplyShards: 2, SnapshotShards: 2, CloseShards: 2}
 		ex.LogDB.Shards = 2
@@ -164,6 +242,7 @@ func startCluster(cfg histCfg) (*cluster, error) {
 			NodeHostDir:    fmt.Sprintf("/c01/%s/n%d", cfg.name, i+1),
 			RTTMillisecond: 5,
 			RaftAddress:    addr,
+			NotifyCommit:   cfg.notifyCommit,
 			Expert:         ex,
 		})
 	}
@@ -173,6 +252,7 @@ func startCluster(cfg histCfg) (*cluster, error) {
 			return nil, fmt.Errorf("NewNodeHost %d: %w", i+1, err)
 		}
 		c.hosts[i] = nh
+		c.role[i] = roleVoter
 		if err := c.startReplica(nh, members, false, c.raftConfig(uint64(i+1), false)); err != nil {
 			return nil, fmt.Errorf("StartReplica %d: %w", i+1, err)
 		}
@@ -188,41 +268,167 @@ func startCluster(cfg histCfg) (*cluster, error) {
 		}
 		time.Sleep(5 * time.Millisecond)
 	}
-	if cfg.nonVoting {
-		nh, err := dragonboat.NewNodeHost(c.nhcs[3])
-		if err != nil {
-			return nil, fmt.Errorf("NewNodeHost 4: %w", err)
-		}
-		c.hosts[3] = nh
-		var aerr error
-		for try := 0; try < 20; try++ {
-			ctx, cancel := context.WithTimeout(context.Background(), 2*time.Second)
-			aerr = c.hosts[0].SyncRequestAddNonVoting(ctx, shardID, 4, c.addrs[3], 0)
-			cancel()
-			if aerr == nil {
-				break
-			}
-			time.Sleep(20 * time.Millisecond)
-		}
-		if aerr != nil {
-			return nil, fmt.Errorf("add non-voting: %w", aerr)
-		}
-		if err := c.startReplica(nh, nil, true, c.raftConfig(4, true)); err != nil {
-			return nil, fmt.Errorf("StartReplica 4: %w", err)
+	if cfg.nonVoting && !cfg.lateJoin {
+		if !c.join(3, roleNonVoting, 20) {
+			return nil, errors.New("the non-voting replica could not be added")
 		}
 	}
 	return c, nil
 }
 
-// wait waits for the result of an accepted request; a request that is never
-// answered (a C12 matter) is counted and treated as timed out.
-func (c *cluster) wait(rs *dragonboat.RequestState, timeout time.Duration) (dragonboat.RequestResult, bool) {
-	select {
-	case r := <-rs.ResultC():
-		return r, false
-	case <-time.After(timeout + 5*time.Second):
-		c.note("request_never_answered")
-		return dragonboat.RequestResult{}, true
+// admin runs f against live member hosts (round robin) until it succeeds.
+func (c *cluster) admin(tries int, timeout time.Duration, f func(ctx context.Context, nh *dragonboat.NodeHost) error) error {
+	var err error = errors.New("no live member host")
+	for try := 0; try < tries; try++ {
+		i := try % maxHosts
+		nh := c.get(i)
+		if r := c.roleOf(i); nh == nil || (r != roleVoter && r != roleNonVoting) {
+			continue
+		}
+		ctx, cancel := context.WithTimeout(context.Background(), timeout)
+		err = f(ctx, nh)
+		cancel()
+		if err == nil {
+			return nil
+		}
+		time.Sleep(10 * time.Millisecond)
+	}
+	return err
+}
+
+// membershipNow reads the shard's membership through the API (linearizable).
+func (c *cluster) membershipNow(tries int) *dragonboat.Membership {
+	var m *dragonboat.Membership
+	_ = c.admin(tries, time.Second, func(ctx context.Context, nh *dragonboat.NodeHost) error {
+		var err error
+		m, err = nh.SyncGetShardMembership(ctx, shardID)
+		return err
+	})
+	return m
+}
+
+// join adds replica i+1 with the given role through the membership API, checks
+// the membership and starts the replica on a new NodeHost (join = true).
+func (c *cluster) join(i int, role int, tries int) bool {
+	id := uint64(i + 1)
+	_ = c.admin(tries, time.Second, func(ctx context.Context, nh *dragonboat.NodeHost) error {
+		switch role {
+		case roleVoter:
+			return nh.SyncRequestAddReplica(ctx, shardID, id, c.addrs[i], 0)
+		case roleNonVoting:
+			return nh.SyncRequestAddNonVoting(ctx, shardID, id, c.addrs[i], 0)
+		default:
+			return nh.SyncRequestAddWitness(ctx, shardID, id, c.addrs[i], 0)
+		}
+	})
+	// the request may have timed out and still have been applied (or the other way
+	// round): the membership decides
+	m := c.membershipNow(tries)
+	if m == nil {
+		c.note("join_unknown")
+		return false
+	}
+	var in bool
+	switch role {
+	case roleVoter:
+		_, in = m.Nodes[id]
+	case roleNonVoting:
+		_, in = m.NonVotings[id]
+	default:
+		_, in = m.Witnesses[id]
+	}
+	if !in {
+		c.note("join_not_added")
+		return false
+	}
+	nh, err := dragonboat.NewNodeHost(c.nhcs[i])
+	if err != nil {
+		c.note("join_nodehost_failed")
+		return false
+	}
+	rc := c.raftConfig(id, role == roleNonVoting)
+	rc.IsWitness = role == roleWitness
+	if err := c.startReplica(nh, nil, true, rc); err != nil {
+		c.note("join_start_failed:" + err.Error())
+		nh.Close()
+		return false
+	}
+	c.mu.Lock()
+	c.hosts[i] = nh
+	c.role[i] = role
+	c.mu.Unlock()
+	c.note(fmt.Sprintf("joined_%d", id))
+	return true
+}
+
+// removeVoter removes one of the initial voters through the API. The replica is
+// muted first (it hears the others, nothing it sends arrives): it cannot be or
+// become the leader that commits its own removal (findings/known.txt:
+// removed-replica-ahead-of-remaining-voters), but it learns of the removal,
+// applies it and stops.
+func (c *cluster) removeVoter(x int) {
+	id := uint64(x + 1)
+	c.net.heal()
+	for j := range c.addrs {
+		if j != x {
+			c.net.block(c.addrs[x], c.addrs[j])
+		}
+	}
+	// requests go to the other hosts
+	saved := c.roleOf(x)
+	c.setRole(x, roleRemoved)
+	_ = c.admin(12, time.Second, func(ctx context.Context, nh *dragonboat.NodeHost) error {
+		return nh.SyncRequestDeleteReplica(ctx, shardID, id, 0)
+	})
+	m := c.membershipNow(12)
+	removed := false
+	if m != nil {
+		_, removed = m.Removed[id]
+	}
+	if m == nil {
+		// not known: nothing is expected of this replica any more
+		c.note("remove_unknown")
+	} else if !removed {
+		c.setRole(x, saved)
+		c.note("remove_not_done")
+	} else {
+		c.note(fmt.Sprintf("removed_%d", id))
+	}
+	c.net.heal()
+}
+
+// neverAnswered is how long after its deadline a request may stay without any
+// result before that is reported (the deadline is counted in ticks of the
+// NodeHost, which run late on a loaded machine).
+const neverAnswered = 15 * time.Second
+
+// wait waits for the final result of an accepted request. With NotifyCommit a
+// Committed notification may come first: committed reports it. A request that is
+// never answered is reported and treated as timed out.
+func (c *cluster) wait(what string, rs *dragonboat.RequestState, timeout time.Duration) (r dragonboat.RequestResult, committed bool, lost bool) {
+	t := time.NewTimer(timeout + neverAnswered)
+	defer t.Stop()
+	for {
+		select {
+		case r = <-rs.ResultC():
+			if r.Committed() && !r.Completed() { // Committed() is also true of Completed
+				if committed {
+					c.violation("%s: two Committed notifications for one request", what)
+				}
+				committed = true
+				continue
+			}
+			if committed && (r.Dropped() || r.Aborted()) {
+				c.violation("%s: request ended %d after its Committed notification", what, dragonboat.VerifC01ResultCode(r))
+			}
+			if c.cfg.notifyCommit && r.Completed() && !committed && strings.HasPrefix(what, "proposal") {
+				c.violation("%s: Completed without a Committed notification before it (NotifyCommit)", what)
+			}
+			return r, committed, false
+		case <-t.C:
+			c.violation("%s: no result %v after the deadline of the request", what, neverAnswered)
+			return dragonboat.RequestResult{}, committed, true
+		}
 	}
 }
 
@@ -247,60 +453,113 @@ func (c *cluster) errCode(err error) uint64 {
 // doWrite / doRead perform one client operation through one of two API paths
 // and record it. The invocation stamp is taken before the API is entered and the
 // response stamp after it returned.
-func (c *cluster) doWrite(client, host int, nh *dragonboat.NodeHost, key, val uint64, async bool, timeout time.Duration) *opRec {
-	op := &opRec{id: atomic.AddUint64(&c.nextID, 1), client: client, host: host, kind: 'W', key: key, val: val}
-	cmd := encodeCmd(op.id, key, val)
-	cs := nh.GetNoOPSession(shardID)
-	defer c.record(op)()
-	if async {
-		op.api = "Propose"
-		op.inv = c.tick()
-		rs, err := nh.Propose(cs, cmd, timeout)
-		// "the input byte slice can be reused for other purposes immediately after the
-		// return of this method" (nodehost.go): reuse it
-		for i := range cmd {
-			cmd[i] = 0xEE
-		}
-		if err != nil {
-			op.code = c.errCode(err)
-			if op.code == c.codes["timeout"] {
-				op.code = codeRefused
-			}
-		} else {
-			r, lost := c.wait(rs, timeout)
-			op.code = dragonboat.VerifC01ResultCode(r)
-			if lost {
-				op.code = c.codes["timeout"]
-			} else if r.Completed() {
-				res := r.GetResult()
-				op.rver = res.Value
-				if len(res.Data) == 8 {
-					op.rval = binary.BigEndian.Uint64(res.Data)
-				} else {
-					op.rval = ^uint64(0)
-				}
-			}
-			rs.Release()
-		}
-		op.resp = c.tick()
+//
+// With a registered client session (cs != nil and not NoOP) a proposal that ends
+// without Completed is proposed again with the same series id, on whatever host
+// pick returns: one operation of the history, to be applied at most once.
+func (c *cluster) doWrite(clientNo, host int, nh *dragonboat.NodeHost, key, val uint64, async bool, timeout time.Duration,
+	cs *client.Session, pick func() (int, *dragonboat.NodeHost)) *opRec {
+	op := &opRec{id: atomic.AddUint64(&c.nextID, 1), client: clientNo, host: host, kind: 'W', key: key, val: val}
+	session := cs != nil
+	var cid, series uint64
+	if session {
+		cid, series = cs.ClientID, cs.SeriesID
 	} else {
-		op.api = "SyncPropose"
-		ctx, cancel := context.WithTimeout(context.Background(), timeout)
-		op.inv = c.tick()
-		res, err := nh.SyncPropose(ctx, cs, cmd)
-		if err != nil {
-			op.code = c.errCode(err)
+		cs = nh.GetNoOPSession(shardID)
+	}
+	defer c.record(op)()
+	take := func(res sm.Result) {
+		op.code = c.codes["completed"]
+		op.rver = res.Value
+		if len(res.Data) == 8 {
+			op.rval = binary.BigEndian.Uint64(res.Data)
 		} else {
-			op.code = c.codes["completed"]
-			op.rver = res.Value
-			if len(res.Data) == 8 {
-				op.rval = binary.BigEndian.Uint64(res.Data)
+			op.rval = ^uint64(0)
+		}
+	}
+	maxAttempts := 1
+	if session {
+		maxAttempts = 3
+	}
+	uncertain := false
+	op.inv = c.tick()
+	for {
+		op.attempts++
+		cmd := encodeCmd(op.id, key, val, cid, series)
+		what := fmt.Sprintf("proposal %d", op.id)
+		if async {
+			op.api = "Propose"
+			var rs *dragonboat.RequestState
+			var err error
+			if nu, e := nh.GetNodeUser(shardID); e == nil && op.id%3 == 0 {
+				op.api = "INodeUser.Propose"
+				rs, err = nu.Propose(cs, cmd, timeout)
 			} else {
-				op.rval = ^uint64(0)
+				rs, err = nh.Propose(cs, cmd, timeout)
+			}
+			// "the input byte slice can be reused for other purposes immediately after the
+			// return of this method" (nodehost.go): reuse it
+			for i := range cmd {
+				cmd[i] = 0xEE
+			}
+			if err != nil {
+				op.code = c.errCode(err)
+				if op.code == c.codes["timeout"] {
+					op.code = codeRefused
+				}
+			} else {
+				r, committed, lost := c.wait(what, rs, timeout)
+				op.committed = op.committed || committed
+				if committed {
+					c.note("committed_notification")
+				}
+				op.code = dragonboat.VerifC01ResultCode(r)
+				if lost {
+					op.code = c.codes["timeout"]
+				} else if r.Completed() {
+					take(r.GetResult())
+				}
+				rs.Release()
+			}
+		} else {
+			op.api = "SyncPropose"
+			ctx, cancel := context.WithTimeout(context.Background(), timeout)
+			res, err := nh.SyncPropose(ctx, cs, cmd)
+			cancel()
+			if err != nil {
+				op.code = c.errCode(err)
+			} else {
+				take(res)
 			}
 		}
-		op.resp = c.tick()
-		cancel()
+		if op.code == c.codes["completed"] {
+			break
+		}
+		if op.code == c.codes["timeout"] || op.code == c.codes["terminated"] || op.code == c.codes["dropped"] {
+			uncertain = true
+		} else if uncertain {
+			// refused or rejected now, but an earlier attempt may have taken effect
+			op.code = c.codes["timeout"]
+		}
+		if op.attempts >= maxAttempts || pick == nil || op.code == c.codes["rejected"] {
+			break
+		}
+		var h int
+		if h, nh = pick(); nh == nil {
+			break
+		}
+		op.host = h
+		c.note("session_retry")
+		if timeout < 100*time.Millisecond {
+			timeout = 250 * time.Millisecond // the impatient client waits longer the next time
+		}
+	}
+	op.resp = c.tick()
+	if session {
+		op.api += "+session"
+		if op.code == c.codes["completed"] {
+			cs.ProposalCompleted()
+		}
 	}
 	return op
 }
@@ -342,14 +601,21 @@ func (c *cluster) doRead(client, host int, nh *dragonboat.NodeHost, key uint64, 
 	if async {
 		op.api = "ReadIndex+ReadLocalNode"
 		op.inv = c.tick()
-		rs, err := nh.ReadIndex(shardID, timeout)
+		var rs *dragonboat.RequestState
+		var err error
+		if nu, e := nh.GetNodeUser(shardID); e == nil && op.id%3 == 0 {
+			op.api = "INodeUser.ReadIndex+ReadLocalNode"
+			rs, err = nu.ReadIndex(timeout)
+		} else {
+			rs, err = nh.ReadIndex(shardID, timeout)
+		}
 		if err != nil {
 			op.code = c.errCode(err)
 			if op.code == c.codes["timeout"] {
 				op.code = codeRefused
 			}
 		} else {
-			r, lost := c.wait(rs, timeout)
+			r, _, lost := c.wait(fmt.Sprintf("read %d", op.id), rs, timeout)
 			if lost {
 				op.code = c.codes["timeout"]
 			} else if r.Completed() {
@@ -371,17 +637,46 @@ func (c *cluster) doRead(client, host int, nh *dragonboat.NodeHost, key uint64, 
 	return op
 }
 
+// pickHost returns a live host that runs (or ran) a full replica of the shard.
+func (c *cluster) pickHost(r *vh.Rand) (int, *dragonboat.NodeHost) {
+	for try := 0; try < 4*maxHosts; try++ {
+		i := r.Intn(maxHosts)
+		if nh := c.get(i); nh != nil && c.roleOf(i) != roleWitness {
+			return i, nh
+		}
+	}
+	return 0, nil
+}
+
 func (c *cluster) clientLoop(id int, stop <-chan struct{}, wg *sync.WaitGroup) {
 	defer wg.Done()
 	r := subRand(c.cfg.seed, 1000+uint64(id))
+	// every other client uses a registered session when the history has sessions
+	useSession := c.cfg.sessions && id%2 == 0
+	var cs *client.Session
+	pick := func() (int, *dragonboat.NodeHost) { return c.pickHost(r) }
+	defer func() {
+		if cs != nil {
+			if _, nh := c.pickHost(r); nh != nil {
+				ctx, cancel := context.WithTimeout(context.Background(), 300*time.Millisecond)
+				if nh.SyncCloseSession(ctx, cs) == nil {
+					c.note("session_closed")
+				}
+				cancel()
+			}
+		}
+	}()
 	for {
 		select {
 		case <-stop:
 			return
 		default:
 		}
-		host := r.Intn(len(c.hosts))
-		nh := c.get(host)
+		if atomic.LoadInt32(&c.paused) != 0 {
+			time.Sleep(2 * time.Millisecond)
+			continue
+		}
+		host, nh := c.pickHost(r)
 		if nh == nil {
 			time.Sleep(time.Millisecond)
 			continue
@@ -394,10 +689,28 @@ func (c *cluster) clientLoop(id int, stop <-chan struct{}, wg *sync.WaitGroup) {
 			defer func() {
 				if p := recover(); p != nil {
 					c.note("client_panic")
+					cs = nil
 				}
 			}()
 			if r.Chance(1, 2) {
-				c.doWrite(id, host, nh, key, r.U64()>>1|1, r.Bool(), timeout)
+				if useSession && cs == nil {
+					ctx, cancel := context.WithTimeout(context.Background(), 300*time.Millisecond)
+					if s, err := nh.SyncGetSession(ctx, shardID); err == nil {
+						cs = s
+						c.note("session_registered")
+					}
+					cancel()
+				}
+				if cs != nil && r.Bool() {
+					// an impatient client: the first attempt often times out although it
+					// is applied, the retry of the same series must not be applied again
+					timeout = time.Duration(5+r.Intn(11)) * time.Millisecond
+				}
+				op := c.doWrite(id, host, nh, key, r.U64()>>1|1, r.Bool(), timeout, cs, pick)
+				if cs != nil && op.code != c.codes["completed"] {
+					// the series may still be applied: this session cannot be used again
+					cs = nil
+				}
 			} else {
 				c.doRead(id, host, nh, key, r.Bool(), timeout)
 			}
@@ -410,11 +723,17 @@ func (c *cluster) clientLoop(id int, stop <-chan struct{}, wg *sync.WaitGroup) {
 
 func (c *cluster) restartHost(i int, r *vh.Rand) {
 	nh := c.get(i)
-	if nh == nil {
+	if nh == nil || c.roleOf(i) != roleVoter {
 		return
 	}
-	c.set(i, nil)
+	// the clients keep using the host while its shard is stopped and the host is
+	// closed: requests in flight end Terminated, later ones are refused
+	if r.Bool() {
+		_ = nh.StopShard(shardID)
+		time.Sleep(time.Duration(r.Intn(20)) * time.Millisecond)
+	}
 	nh.Close()
+	c.set(i, nil)
 	c.note("restart")
 	time.Sleep(time.Duration(20+r.Intn(150)) * time.Millisecond)
 	nh2, err := dragonboat.NewNodeHost(c.nhcs[i])
@@ -442,11 +761,147 @@ func (c *cluster) leader() uint64 {
 	return 0
 }
 
+// snapshotOps exercises RequestSnapshot with its options, an exported snapshot
+// and RequestCompaction on one live replica.
+func (c *cluster) snapshotOps(r *vh.Rand, round int) {
+	i, nh := c.pickHost(r)
+	if nh == nil || (c.roleOf(i) != roleVoter && c.roleOf(i) != roleNonVoting) {
+		return
+	}
+	req := func(opt dragonboat.SnapshotOption, what string) uint64 {
+		ctx, cancel := context.WithTimeout(context.Background(), time.Second)
+		defer cancel()
+		idx, err := nh.SyncRequestSnapshot(ctx, shardID, opt)
+		if err == nil {
+			c.note("snapshot_" + what)
+		} else {
+			c.note("snapshot_" + what + "_err")
+		}
+		return idx
+	}
+	idx := req(dragonboat.SnapshotOption{OverrideCompactionOverhead: true, CompactionOverhead: uint64(1 + r.Intn(4))}, "overhead")
+	time.Sleep(40 * time.Millisecond) // a snapshot at the index of the previous one is refused
+	switch round % 3 {
+	case 0:
+		dir := fmt.Sprintf("/c01/%s/export%d-%d", c.cfg.name, i+1, round)
+		if err := c.fss[i].MkdirAll(dir, 0755); err == nil {
+			req(dragonboat.SnapshotOption{Exported: true, ExportPath: dir}, "exported")
+		}
+	case 1:
+		if idx > 4 {
+			req(dragonboat.SnapshotOption{OverrideCompactionOverhead: true, CompactionIndex: idx - 3}, "index")
+		}
+	default:
+		req(dragonboat.DefaultSnapshotOption, "default")
+	}
+	if op, err := nh.RequestCompaction(shardID, uint64(i+1)); err == nil {
+		select {
+		case <-op.ResultC():
+			c.note("compaction_done")
+		case <-time.After(2 * time.Second):
+			c.note("compaction_slow")
+		}
+	} else {
+		c.note("compaction_rejected")
+	}
+}
+
+// queryLog asks one replica for a range of its committed raft log.
+func (c *cluster) queryLog(r *vh.Rand) {
+	i, nh := c.pickHost(r)
+	if nh == nil {
+		return
+	}
+	var first uint64 = 1
+	if lr, err := nh.GetLogReader(shardID); err == nil {
+		lo, hi := lr.GetRange()
+		if hi > lo {
+			first = lo + uint64(r.Intn(int(hi-lo)))
+		} else {
+			first = lo
+		}
+	}
+	if first == 0 {
+		first = 1
+	}
+	rs, err := nh.QueryRaftLog(shardID, first, first+40, 1<<20)
+	if err != nil {
+		c.note("querylog_refused")
+		return
+	}
+	select {
+	case res := <-rs.AppliedC():
+		if res.Completed() {
+			ents, rg := res.RaftLogs()
+			c.note("querylog_completed")
+			c.noteMu.Lock()
+			for k, e := range ents {
+				if e.Index != first+uint64(k) {
+					c.mon = append(c.mon, fmt.Sprintf("QueryRaftLog from %d returned index %d at position %d", first, e.Index, k))
+					break
+				}
+				if e.Type == pb.ApplicationEntry && len(e.Cmd) == cmdLen {
+					c.qlog = append(c.qlog, qentry{host: i, index: e.Index, id: binary.BigEndian.Uint64(e.Cmd)})
+				}
+			}
+			c.noteMu.Unlock()
+			_ = rg
+		} else {
+			c.note(fmt.Sprintf("querylog_code_%d", dragonboat.VerifC01ResultCode(res)))
+		}
+		rs.Release()
+	case <-time.After(neverAnswered):
+		c.violation("QueryRaftLog on host %d: no result", i+1)
+	}
+}
+
+// idle pauses clients and faults for a while so that a shard with Config.Quiesce
+// goes quiet and is woken up again by the next request.
+func (c *cluster) idle() {
+	c.net.heal()
+	atomic.StoreInt32(&c.paused, 1)
+	time.Sleep(800 * time.Millisecond)
+	atomic.StoreInt32(&c.paused, 0)
+	c.note("idle_period")
+}
+
+// step is one scheduled action of the nemesis (at a fraction of the duration).
+type step struct {
+	at   float64
+	what string
+}
+
+func (c *cluster) schedule() []step {
+	var st []step
+	cfg := c.cfg
+	if cfg.restart {
+		st = append(st, step{0.33, "restart"})
+	}
+	if cfg.nonVoting && cfg.lateJoin {
+		st = append(st, step{0.40, "join4"})
+	}
+	if cfg.membership {
+		st = append(st, step{0.18, "join5"}, step{0.45, "join6"}, step{0.62, "remove"})
+	}
+	if cfg.snapshotOps {
+		st = append(st, step{0.25, "snapshot"}, step{0.55, "snapshot"}, step{0.80, "snapshot"})
+	}
+	if cfg.queryLog {
+		st = append(st, step{0.30, "querylog"}, step{0.50, "querylog"}, step{0.70, "querylog"}, step{0.90, "querylog"})
+	}
+	if cfg.quiesce {
+		st = append(st, step{0.42, "idle"})
+	}
+	sort.SliceStable(st, func(i, j int) bool { return st[i].at < st[j].at })
+	return st
+}
+
 func (c *cluster) nemesis(stop <-chan struct{}, wg *sync.WaitGroup) {
 	defer wg.Done()
 	r := subRand(c.cfg.seed, 77)
-	restarted := !c.cfg.restart
+	sched := c.schedule()
 	start := time.Now()
+	round := 0
 	for {
 		select {
 		case <-stop:
@@ -457,9 +912,37 @@ func (c *cluster) nemesis(stop <-chan struct{}, wg *sync.WaitGroup) {
 		if !c.cfg.faults {
 			continue
 		}
-		if !restarted && time.Since(start) > c.cfg.duration/3 {
-			restarted = true
-			c.restartHost(r.Intn(3), r)
+		if len(sched) > 0 && float64(time.Since(start)) > sched[0].at*float64(c.cfg.duration) {
+			what := sched[0].what
+			sched = sched[1:]
+			switch what {
+			case "restart":
+				c.restartHost(r.Intn(3), r)
+			case "join4":
+				c.net.heal()
+				c.join(3, roleNonVoting, 12)
+			case "join5":
+				c.net.heal()
+				c.join(4, roleVoter, 12)
+			case "join6":
+				c.net.heal()
+				c.join(5, roleWitness, 12)
+			case "remove":
+				// only with the fourth voter in place: three voters remain
+				if c.roleOf(4) == roleVoter && c.get(4) != nil {
+					x := r.Intn(3)
+					if c.get(x) != nil && c.roleOf(x) == roleVoter {
+						c.removeVoter(x)
+					}
+				}
+			case "snapshot":
+				round++
+				c.snapshotOps(r, round)
+			case "querylog":
+				c.queryLog(r)
+			case "idle":
+				c.idle()
+			}
 			continue
 		}
 		switch r.Intn(10) {
@@ -516,8 +999,8 @@ func (c *cluster) nemesis(stop <-chan struct{}, wg *sync.WaitGroup) {
 					continue
 				}
 				if lid, _, ok, _ := nh.GetLeaderID(shardID); ok {
-					target := uint64(1 + r.Intn(3))
-					if target != lid {
+					target := uint64(1 + r.Intn(5))
+					if target != lid && c.roleOf(int(target-1)) == roleVoter {
 						_ = nh.RequestLeaderTransfer(shardID, target)
 						c.note("leader_transfer")
 					}
@@ -532,6 +1015,7 @@ type histResult struct {
 	ops     []*opRec
 	log     []applyRec // one per index, index order
 	smcheck string
+	mon     string // first message of the other gen-time monitors ("" = none)
 	final   [][3]uint64
 	finalOK bool
 	notes   map[string]int
@@ -559,55 +1043,113 @@ func runHistory(cfg histCfg) (*histResult, error) {
 	c.net.heal()
 	close(stop)
 	wg.Wait()
-	// settle: one more write, then a linearizable read on every host so that every
-	// replica has applied the whole log
+	// messages delayed by the network are delivered within 30 ms of the heal
+	time.Sleep(40 * time.Millisecond)
+	// settle: one more write, then a linearizable read on every host that runs a
+	// replica of the final membership, so that every replica has applied the whole log
 	settled := true
 	var lastW *opRec
-	for try := 0; try < 10; try++ {
-		nh := c.get(try % 3)
-		if nh == nil {
+	settleBy := time.Now().Add(30 * time.Second)
+	for try := 0; time.Now().Before(settleBy); try++ {
+		i := try % maxHosts
+		nh := c.get(i)
+		if nh == nil || c.roleOf(i) != roleVoter {
 			continue
 		}
-		lastW = c.doWrite(0, try%3, nh, 1, 1, false, 3*time.Second)
+		lastW = c.doWrite(0, i, nh, 1, 1, false, 3*time.Second, nil, nil)
 		if lastW.code == c.codes["completed"] {
 			break
 		}
+		time.Sleep(20 * time.Millisecond) // a refusal (no leader yet) comes back at once
 	}
 	if lastW == nil || lastW.code != c.codes["completed"] {
 		settled = false
+		c.violation("no proposal completed within 30 s after the network healed")
 	}
+	members := map[uint64]bool{}
 	for i := range c.hosts {
 		nh := c.get(i)
 		if nh == nil {
 			continue
 		}
-		ok := false
-		for try := 0; try < 5 && !ok; try++ {
-			ok = c.doRead(0, i, nh, 1, false, 3*time.Second).code == c.codes["completed"]
-		}
-		if !ok {
-			settled = false
+		switch c.roleOf(i) {
+		case roleVoter, roleNonVoting:
+			ok := false
+			readBy := time.Now().Add(24 * time.Second)
+			for settled && !ok && time.Now().Before(readBy) {
+				ok = c.doRead(0, i, nh, 1, false, 3*time.Second).code == c.codes["completed"]
+				if !ok {
+					time.Sleep(20 * time.Millisecond)
+				}
+			}
+			if !ok && settled {
+				settled = false
+				c.violation("replica %d of the final membership completed no linearizable read within 24 s after the network healed", i+1)
+			}
+			members[uint64(i+1)] = true
+		case roleRemoved:
+			// a host whose replica was removed answers (with an error, or correctly
+			// if it has not learned of the removal yet), it does not hang; the
+			// operations are ordinary operations of the history
+			c.doRead(0, i, nh, 1, true, 300*time.Millisecond)
+			c.doWrite(0, i, nh, 1, 3, true, 300*time.Millisecond, nil, nil)
+			c.doRead(0, i, nh, 1, false, 300*time.Millisecond)
+			c.note("removed_host_probed")
+			if !nh.HasNodeInfo(shardID, uint64(i+1)) {
+				c.violation("host %d has no record of the replica it ran", i+1)
+			}
+			ctx, cancel := context.WithTimeout(context.Background(), time.Second)
+			switch err := nh.SyncRemoveData(ctx, shardID, uint64(i+1)); {
+			case err == nil:
+				c.note("removed_data_deleted")
+				if nh.HasNodeInfo(shardID, uint64(i+1)) {
+					c.violation("host %d still lists the replica after SyncRemoveData succeeded", i+1)
+				}
+			case errors.Is(err, dragonboat.ErrShardNotStopped):
+				c.note("removed_replica_still_running")
+			default:
+				c.note("removed_data_err")
+			}
+			cancel()
 		}
 	}
 	res := &histResult{ops: c.ops, notes: c.notes}
-	// final states of the live replicas
+	// final states of the live replicas: the members converge to one state (an
+	// entry proposed before the clients stopped may still be committed a little later)
 	c.rec.mu.Lock()
 	live := map[uint64]*kvSM{}
 	for k, v := range c.rec.live {
-		live[k] = v
+		if members[k] {
+			live[k] = v
+		}
 	}
 	c.rec.mu.Unlock()
 	var maxCount uint64
 	finals := map[uint64][][3]uint64{}
 	counts := map[uint64]uint64{}
-	for rep, s := range live {
-		cnt, st := s.state()
-		counts[rep] = cnt
-		finals[rep] = st
-		if cnt >= maxCount {
-			maxCount = cnt
-			res.final = st
+	converged := false
+	for wait := 0; ; wait++ {
+		maxCount = 0
+		for rep, s := range live {
+			counts[rep], finals[rep] = s.state()
+			if counts[rep] >= maxCount {
+				maxCount = counts[rep]
+				res.final = finals[rep]
+			}
 		}
+		converged = true
+		for _, n := range counts {
+			if n != maxCount {
+				converged = false
+			}
+		}
+		if converged || !settled || wait >= 500 {
+			break
+		}
+		time.Sleep(10 * time.Millisecond)
+	}
+	if settled && !converged {
+		c.violation("the replicas of the final membership did not reach the same number of applied updates within 5 s after every one of them served a linearizable read: %v", counts)
 	}
 	for i := range c.hosts {
 		if nh := c.get(i); nh != nil {
@@ -622,11 +1164,15 @@ func runHistory(cfg histCfg) (*histResult, error) {
 	c.rec.mu.Lock()
 	applies := append([]applyRec(nil), c.rec.applies...)
 	bad := append([]string(nil), c.rec.bad...)
+	c.notes["quiesce_entered"] = int(atomic.SwapInt64(&quiesceEntered, 0))
+	c.notes["sm_streamed_snapshots"] = c.rec.streams
+	c.notes["sm_recovered_snapshots"] = c.rec.recovers
 	c.rec.mu.Unlock()
 	byIndex := map[uint64]applyRec{}
 	for _, a := range applies {
 		if b, ok := byIndex[a.index]; ok {
-			if b.id != a.id || b.key != a.key || b.val != a.val || b.prev != a.prev || b.ver != a.ver || b.count != a.count {
+			if b.id != a.id || b.key != a.key || b.val != a.val || b.prev != a.prev || b.ver != a.ver || b.count != a.count ||
+				b.cid != a.cid || b.series != a.series {
 				bad = append(bad, fmt.Sprintf("replicas %d and %d disagree at index %d", b.replica, a.replica, a.index))
 			}
 		} else {
@@ -653,5 +1199,49 @@ func runHistory(cfg histCfg) (*histResult, error) {
 		sort.Strings(bad)
 		res.smcheck = bad[0]
 	}
+
+	// ---- the other monitors on what was recorded ----
+	// a (client session, series) pair, and an operation, is applied at most once
+	type pair struct{ cid, series uint64 }
+	seenPair := map[pair]uint64{}
+	seenID := map[uint64]uint64{}
+	inLog := map[uint64]bool{}
+	for _, a := range res.log {
+		inLog[a.id] = true
+		if a.cid != 0 {
+			p := pair{a.cid, a.series}
+			if idx, ok := seenPair[p]; ok {
+				c.violation("series %d of client session %d was applied twice (indexes %d and %d)", a.series, a.cid, idx, a.index)
+			}
+			seenPair[p] = a.index
+		}
+		if idx, ok := seenID[a.id]; ok {
+			c.violation("operation %d was applied twice (indexes %d and %d)", a.id, idx, a.index)
+		}
+		seenID[a.id] = a.index
+	}
+	// a proposal whose Committed notification was delivered is applied
+	if settled {
+		for _, o := range c.ops {
+			if o.committed && !inLog[o.id] {
+				c.violation("operation %d was notified Committed but is not in the applied log", o.id)
+			}
+		}
+	}
+	// QueryRaftLog returns the entries that were applied at those indexes
+	for _, q := range c.qlog {
+		if a, ok := byIndex[q.index]; ok {
+			if a.id != q.id {
+				c.violation("QueryRaftLog on host %d returned operation %d at index %d, operation %d was applied there", q.host+1, q.id, q.index, a.id)
+			}
+		}
+		// (an entry without an update at its index is a retried series or a rejected one)
+	}
+	c.noteMu.Lock()
+	if len(c.mon) > 0 {
+		sort.Strings(c.mon)
+		res.mon = c.mon[0]
+	}
+	c.noteMu.Unlock()
 	return res, nil
 }
